@@ -127,6 +127,7 @@ def syscall_monitor(binp, jobs, work, real_dir, viol, stats):
     bracket = None  # (tid, index)
     idx = -1
     own_fds = set()
+    alloc_fds = set()
     children = {}
     seen_calls = {}
     brackets = 0
@@ -160,6 +161,27 @@ def syscall_monitor(binp, jobs, work, real_dir, viol, stats):
             seen_calls[name] = seen_calls.get(name, 0) + 1
             if name in MEM:
                 continue
+            # glibc's allocator reads /proc/sys/vm/overcommit_memory once, the first time it
+            # considers shrinking a non-main heap (arena.c check_may_shrink_heap): allocator
+            # internals, whichever call happens to trigger it
+            if name == "sched_getaffinity":
+                continue  # glibc __get_nprocs when malloc sizes its arena pool
+            if name == "openat" and "O_RDONLY" in text and any(
+                    q in text for q in ('"/proc/sys/vm/overcommit_memory"',
+                                        '"/sys/devices/system/cpu/online"',
+                                        '"/sys/devices/system/cpu/possible"')):
+                fm = re.search(r"= (\d+)$", text)
+                if fm:
+                    alloc_fds.add(int(fm.group(1)))
+                stats["allocator_overcommit_reads"] = stats.get(
+                    "allocator_overcommit_reads", 0) + 1
+                continue
+            if name in ("read", "close"):
+                fm = re.match(r"^\w+\((\d+)", text)
+                if fm and int(fm.group(1)) in alloc_fds:
+                    if name == "close":
+                        alloc_fds.discard(int(fm.group(1)))
+                    continue
             if not fmt:
                 viol.append(Violation("syscall-formatter-off", name,
                                       "call with rustfmt off made syscall: %s" % text[:200], rp))
